@@ -35,6 +35,10 @@ class Renderer:
         self.env = env or {}
         if func is not None and inline_locals:
             self._collect_locals(func.get('body'))
+            if inline_locals == 'pure':
+                # only locals whose initialiser has no side effects (a copy of a table element, a computed flag)
+                from .normalize import is_pure
+                self.locals = {k: v for k, v in self.locals.items() if is_pure(v)}
 
     def _collect_locals(self, body):
         decls = {}
